@@ -22,8 +22,9 @@ def has_spec(shape):
 def shape_sets(tier, spec_every=(1, 100)):
     """list of (family, shape).  Shapes come in two generations: (0) every alternative, optional part and both ends of every
     bounded repeat, unbounded repeats at their minimum; (1) one more repetition of every unbounded repeat and digit runs of 3-5.
-    thorough: all of both.  quick: all shapes WITHOUT a hurdle specification, and of those with one (the part of the language
-    whose shapes multiply: 130 000 of them) a deterministic sample, every spec_every[g]-th of generation g."""
+    Both tiers: all shapes WITHOUT a hurdle specification; of those with one (the part of the language whose shapes multiply:
+    130 000 of them) a deterministic sample, every spec_every[g]-th of generation g in quick, 25 times as many in thorough (all
+    of them would take hours)."""
     c = codes()
     out, seen = [], set()
 
@@ -33,21 +34,17 @@ def shape_sets(tier, spec_every=(1, 100)):
             if k not in seen:
                 seen.add(k)
                 out.append((fam, s))
+    if tier == 'thorough':
+        spec_every = (1, max(1, spec_every[1] // 25))
     for fam in FAMS:
         base = SH.shapes(getattr(c, fam), 0)
-        if tier == 'thorough':
-            add(fam, base)
-        else:
-            add(fam, [s for s in base if not has_spec(s)])
-            add(fam, [s for s in base if has_spec(s)][::spec_every[0]])
+        add(fam, [s for s in base if not has_spec(s)])
+        add(fam, [s for s in base if has_spec(s)][::spec_every[0]])
     for fam in FAMS:
         full = SH.shapes(getattr(c, fam), 1, (3, 4, 5))
-        if tier == 'thorough':
-            add(fam, full)
-        else:
-            add(fam, [s for s in full if not has_spec(s)])
-            spec = [s for s in full if has_spec(s)]
-            add(fam, spec[::spec_every[1]])
+        add(fam, [s for s in full if not has_spec(s)])
+        spec = [s for s in full if has_spec(s)]
+        add(fam, spec[::spec_every[1]])
     return out
 
 
